@@ -210,7 +210,7 @@ class TriggerHandler:
         if len(callbacks) > 0:
             logging.debug("Callbacks registered: %s", callbacks)
             self._callbacks.get().append(
-                CallbackContext(event, file, line, function, callbacks))
+                CallbackContext(event, file, line, function, callbacks, id(frame)))
 
         return self.trace_call
 
@@ -230,12 +230,17 @@ class TriggerHandler:
                              function_name: str):
         # check every pending context (newest first), not only the top one: a context further down can be
         # for this location as well (e.g. a method callback below the callback of the method's last line)
+        # ... of the SAME invocation: under recursion the contexts of the outer invocations are at this location by
+        # name too, but this event ends the newest one only - theirs is still to come
         pending = self._callbacks.value
         not_at_location = deque()
+        invocation = []
         while len(pending) > 0:
             context: CallbackContext = pending.pop()
             # if it is for our location process it
-            if context.at_location(event, file, line, function_name, frame):
+            if context.at_location(event, file, line, function_name, frame) and (
+                    len(invocation) == 0 or invocation[0] is None or context.opened_in == invocation[0]):
+                invocation.append(context.opened_in)
                 logging.debug("At callback location %s", context.name)
                 context.process(ctx, event, frame, arg)
             else:
